@@ -551,6 +551,25 @@ static void parseEmit(void *inFrame, lltd_iface_state *st, void *iface_ctx) {
     int numDescs = (int)lltd_ntohs(emitHeader->numDescs);
     uint16_t offsetEmitee = 0;
 
+    /*
+     * The core is not told the received length, only that the frame sits in
+     * an MTU-sized receive buffer: never walk (or emit) more descriptors than
+     * a maximum-size Emit can carry. If the MTU is unknown assume the
+     * smallest buffer a port allocates.
+     */
+    size_t mtu = 0;
+    if (lltd_port_get_mtu(iface_ctx, &mtu) != 0 || mtu == 0) {
+        mtu = 576;
+    }
+    size_t maxDescs = 0;
+    if (mtu > sizeof(*lltdHeader) + sizeof(*emitHeader)) {
+        maxDescs = (mtu - sizeof(*lltdHeader) - sizeof(*emitHeader)) / sizeof(emitee_descs);
+    }
+    if ((size_t)numDescs > maxDescs) {
+        log_warning("parseEmit: %d descriptors declared, frame can carry %u", numDescs, (unsigned)maxDescs);
+        numDescs = (int)maxDescs;
+    }
+
     for (int i = 0; i < numDescs; i++) {
         bool ack = (i == numDescs - 1);
         emitee_descs *emitee = (emitee_descs *)((uint8_t *)emitHeader + sizeof(*emitHeader) + offsetEmitee);
